@@ -501,11 +501,12 @@ def responsePrepare (site : Site) (s : ReqSt) : ReqSt :=
   let s1? : Except ReqSt ReqSt :=
     if s.physPath.isNone then
       let s := httpResponseConfig site s
-      -- uri_clean hooks: mod_setenv, mod_access
-      let s := setenvUriClean s
+      -- uri_clean hooks in module order: mod_access (a rejection ends the hook chain), mod_setenv
       if site.denySuffix.any (fun d => endsWith s.uriPath.bytes d) then
         .error { s with httpStatus := 403, handlerModule := false }
-      else if s.method = mOPTIONS && s.uriPath.bytes = [42] then .error (optionsStar s)
+      else
+      let s := setenvUriClean s
+      if s.method = mOPTIONS && s.uriPath.bytes = [42] then .error (optionsStar s)
       else if s.method = mCONNECT && (s.handlerModule || !s.h2ConnectExt) then
         .error (if s.handlerModule then s else errorClose s 405)
       else
@@ -647,10 +648,11 @@ deriving Repr, DecidableEq
 
 def Conn.fresh (e : SrvEnv) : Conn := { r := ReqSt.init e }
 
-/-- one complete request message (head ++ body bytes as far as the client sent them) on an
-    HTTP/1.x connection: h1_recv_headers(), body accounting, http_response_handler(),
-    h1_send_headers(), connection_handle_response_end_state() -/
-def h1Msg (site : Site) (e : SrvEnv) (c : Conn) (head : Bytes) (bodySent : Nat) : Conn × Option Out :=
+/-- one request head on an HTTP/1.x connection: h1_recv_headers(), http_response_handler(),
+    h1_send_headers(), connection_handle_response_end_state().  No module of the modelled site
+    reads a request body, so r->reqbody_queue stays empty and a request that announces a body
+    is answered with keep-alive off. -/
+def h1Msg (site : Site) (e : SrvEnv) (c : Conn) (head : Bytes) : Conn × Option Out :=
   if !c.isOpen then (c, none) else
   let count := c.requestCount + 1                       -- connection_handle_request_start_state()
   let r0 := { c.r with loopsPerRequest := 0 }
@@ -663,10 +665,6 @@ def h1Msg (site : Site) (e : SrvEnv) (c : Conn) (head : Bytes) (bodySent : Nat) 
     | .blank _ => .blank
   match parsed with
   | .done r1 =>
-    -- request body: Content-Length bytes are read into reqbody_queue (as far as sent)
-    let want : Nat := if r1.reqbodyLength > 0 then r1.reqbodyLength.toNat else 0
-    let got := min want bodySent
-    let r1 := { r1 with reqbodyQueue := { r1.reqbodyQueue with bytesIn := r1.reqbodyQueue.bytesIn + got } }
     let r2 := h1SendHeaders count (respond site r1)
     let out := h1Output r2
     -- connection_handle_response_end_state()
@@ -685,10 +683,10 @@ def Conn.reaccept (c : Conn) : Conn :=
   { c with isOpen := true, requestCount := 0,
            r := { c.r with condCache := c.r.condCache.map fun _ => ({} : CondEnt), conValid := 258 } }
 
-def h1Run (site : Site) (e : SrvEnv) : Conn → List (Bytes × Nat) → List (Option Out)
+def h1Run (site : Site) (e : SrvEnv) : Conn → List Bytes → List (Option Out)
   | _, [] => []
-  | c, (head, sent) :: rest =>
-    let (c', o) := h1Msg site e c head sent
+  | c, head :: rest =>
+    let (c', o) := h1Msg site e c head
     o :: h1Run site e c' rest
 
 /-! ### HTTP/2 streams -/
